@@ -12,7 +12,7 @@
 From Coq Require Import String.
 From Coq Require Import NArith ZArith Bool List.
 Import ListNotations.
-From TV Require Import C02.Model C02.Proofs2 C02.Proofs3 C02.Proofs4.
+From TV Require Import C02.Model C02.Client C02.Proofs2 C02.Proofs3 C02.Proofs4 C02.Proofs5 C02.Proofs7 C02.Codec.
 
 (* FULL STATEMENT (INV of DESIGN.md section 7), refuted by the open known finding
    "write-headers-raised" (C02_header_error_refuted below):
@@ -42,6 +42,49 @@ Theorem C02_every_run_ends_complete_aborted_or_header_error : forall e q p,
   PhaseD q false (run e q p) \/ PhaseX q false (run e q p) \/ g_hdr_err (run e q p) = true.
 Proof. intros e q p. apply (run_final e q false p). discriminate. Qed.
 Print Assumptions C02_every_run_ends_complete_aborted_or_header_error.
+
+(* RT of DESIGN.md section 7, at the level of what is handed to the stream.  [spec] (C02/Client.v) is
+   the reference semantics of plain programs (every header operation valid and not touching
+   Content-Length / Transfer-Encoding / Etag / Connection, final statuses), defined without any
+   wire-level notion: expected status, the body a GET would carry, the handler's headers.  Whenever
+   it makes a claim - for every environment, request (method, version, If-None-Match, early,
+   write-completion order, ...) and plain program of any length - the run ends finished, was not
+   aborted, the header block carries exactly the expected status (the handler's last status before
+   the first flush; 304 on an ETag match; 500 with the error page when a 1xx/204/304 response was
+   given a body), the bytes handed to the stream after it are exactly the concatenation of the
+   writes (nothing for HEAD and 1xx/204/304; no buffered write is lost or duplicated across
+   flushes), and a Content-Length, if present, is the decimal length of the body a GET would carry
+   (also for HEAD).
+   FULL STATEMENT has no [g_hdr_err] hypothesis; it is refuted only by the open known finding
+   "write-headers-raised" (a plain program's header block can still fail to serialise when the
+   Server/Date values of the environment contain CR/LF), hence the _partial name. *)
+Theorem C02_content_partial : forall e q p code gbody hh,
+  spec e q p = Expect code gbody hh -> g_hdr_err (run e q p) = false ->
+  h_fin (run e q p) = true /\ g_out_err (run e q p) = false /\
+  exists H', o_head (run e q p) = Some (code, H') /\
+             concat (o_body (run e q p)) = (if nobody q code then [] else gbody) /\
+             (hmem K_CL H' = true -> hget K_CL H' = Some (dec (blen gbody))).
+Proof. exact content. Qed.
+Print Assumptions C02_content_partial.
+
+(* the hypotheses are met: a streamed and a buffered plain program *)
+Example C02_content_example_streamed :
+  spec env0 q_get11 [Status 404; Write (b "x"); Flush; Write (b "yz")] =
+    Expect 404 (b "xyz") (hall (default_hdrs env0))
+  /\ g_hdr_err (run env0 q_get11 [Status 404; Write (b "x"); Flush; Write (b "yz")]) = false.
+Proof. vm_compute. split; reflexivity. Qed.
+
+(* Chunk formatting and the empty-chunk rule: for every list of chunks (any bytes, empty chunks
+   included - they are not written, because an empty chunk would mean end-of-stream) and whatever
+   follows on the connection, the strict client decoder [dechunk] (hex size, CRLF, data, CRLF, ...,
+   "0" CRLF CRLF; no extensions, no trailers), run with the fuel [parse_resp] gives it, returns
+   exactly the concatenation of the chunks and leaves exactly the following bytes.  [wire_of] renders
+   a chunk-encoded body as  concat (map (enc_chunk true) (o_body s)) ++ "0" CRLF CRLF. *)
+Theorem C02_chunked_coding_roundtrip : forall chunks rest,
+  let w := concat (map (enc_chunk true) chunks) ++ b "0" ++ CRLF ++ CRLF ++ rest in
+  dechunk (S (length w)) w [] = DDone (concat chunks) rest.
+Proof. exact chunked_roundtrip. Qed.
+Print Assumptions C02_chunked_coding_roundtrip.
 
 (* The open finding, as a theorem about the faithful model: GET HTTP/1.1, handler
    set_header("Bad Name", "v"); flush()  puts the bare chunk terminator on the wire with no header
